@@ -62,8 +62,8 @@ class C03(Prop):
     id = "C03"
     corr_module = "Corr.C03Corr"
     preds = ("corr", "spec", "in_scope")
-    quick_n = 1300
-    thorough_n = 24000
+    quick_n = 1100
+    thorough_n = 20000
     rule = ("one schema per case fixes which paths are sections/leaves; each of the 8 non-env levels is "
             "absent or a random sub-tree of it (overlap forced, depth<=4, all leaf kinds); system/user/"
             "project/runtime levels are real files (yaml/yml/json/py, several candidates with different "
@@ -201,6 +201,12 @@ class C03(Prop):
                     deferred = True
             if rng.random() < 0.2 and loads:
                 loads.insert(rng.randrange(len(loads) + 1), ["merge"])
+        seen_files, uniq = set(), []
+        for e in fs:                      # one entry per (location, suffix)
+            if (e[0], e[1]) not in seen_files:
+                seen_files.add((e[0], e[1]))
+                uniq.append(e)
+        fs = uniq
         ops = pre + loads
         if rng.random() < (0.75 if not deferred else 0.85):
             if rng.random() < 0.1:
